@@ -106,10 +106,29 @@ def incompleteReturn (f : Fn) : Bool := incompleteAnn f.retAnn
 /-- the call passes no declared parameter positionally -/
 def keywordCall (t : Truth) (args : List Val) : Bool := args.length ≤ t.implicit
 
+/-- C05: the documented list of operator methods that stay subject to the keyword-only discipline, transcribed from the documentation of
+    the property (NOT read from the code: `documented_list_is_code_list` in Props/C05.lean proves that the generated
+    `requireKwargsDunders` equals it, so deleting an entry in the source breaks that theorem instead of moving the spec along) -/
+def documentedKwargsDunders : List String :=
+  ["__new__", "__init__", "__str__", "__del__", "__int__", "__float__", "__complex__", "__oct__", "__hex__", "__index__", "__trunc__",
+   "__repr__", "__unicode__", "__hash__", "__nonzero__", "__dir__", "__sizeof__"]
 /-- C05: the callable is exempt from the keyword-only discipline (operator methods outside the documented list, property
     setters) -/
 def exempt (f : Fn) (t : Truth) : Bool :=
-  t.realSetter || (f.startsDunder && f.endsDunder && !PedVerif.Gen.CallTables.requireKwargsDunders.contains f.name)
+  t.realSetter || (f.startsDunder && f.endsDunder && !documentedKwargsDunders.contains f.name)
+
+/-- region `receiverNotNamedSelf` (C05): the call has an implicit receiver (`obj.m(…)`: harness truth `implicit = 1`) and nothing else
+    positional, but the library does not recognise a receiver - it knows instance methods by the NAME of the first parameter (`self`), static
+    methods by the decorator text, and otherwise only a second decorator line makes it drop the first argument -/
+def regionReceiverNotNamedSelf (f : Fn) (t : Truth) (args : List Val) : Bool :=
+  t.implicit == 1 && args.length == 1 && !f.strips
+/-- region `positionalForDefaulted` (C03): a positional value (after the implicit receiver) that binds to a declared parameter WITH a default
+    and does not conform to its annotation.  `_check_type_param` never looks at a positional value for a defaulted parameter (it checks the
+    keyword or the declared default), so such a value is outside the enumeration "explicit keyword, omitted-but-defaulted, *args element,
+    **kwargs value" of C03 and outside `anyNonConforming`; this predicate names the region -/
+def positionalForDefaultedBad (env : Env) (f : Fn) (t : Truth) (args : List Val) : Bool :=
+  ((args.drop t.implicit).zip f.plain).any (fun vp => vp.2.dflt.isSome &&
+    (match vp.2.ann with | some a => !conforms env a vp.1 | none => false))
 
 /-- region: the first positional argument is stripped as if it were `self`/`cls` although the call has no implicit
     argument, it is the only positional, and nothing later notices (the first declared parameter has a default, or the
